@@ -187,6 +187,23 @@ def reduce_mean(interp, v, axis):
     return r
 
 
+def _rows_cond(axis, cond):
+    """(root, term over root.u): 'u is a row of `axis` (in some segment) and `cond` holds there'"""
+    from .frames import RowAxis
+
+    masks = []
+    a = axis
+    while isinstance(a, SubSpace):
+        masks.append(a.mask)
+        a = a.parent
+    if isinstance(a, RowAxis):
+        parts = []
+        for i, d in enumerate(a.doms):
+            parts.append(z3.And(d, *[a.seg_term(m, i) for m in masks], a.seg_term(cond, i)))
+        return a.root, z3.simplify(z3.Or(*parts) if len(parts) > 1 else parts[0])
+    return a, z3.simplify(z3.And(*masks, cond))
+
+
 def reduce_minmax(interp, v, axis, which):
     ax = _axis(v, axis)
     rest = tuple(a for i, a in enumerate(v.axes) if i != ax)
@@ -220,28 +237,42 @@ def reduce_minmax(interp, v, axis, which):
     return out
 
 
+def reduce_opaque(interp, v, axis, what, nonneg=False):
+    """a reduction whose value is not modelled beyond being a function of the reduced array"""
+    ax = _axis(v, axis)
+    rest = tuple(a for i, a in enumerate(v.axes) if i != ax)
+    idx = [root_space(x).u for x in rest if x is not ONE]
+    if idx:
+        f = z3.Function(fresh_name(what), *([z3.IntSort()] * len(idx) + [z3.RealSort()]))
+        sym = f(*idx)
+    else:
+        sym = z3.Real(fresh_name(what))
+    if nonneg:
+        interp.ctx.assume(sym >= 0)
+    return V(sym, rest, None)
+
+
 def reduce_anyall(interp, v, axis, which):
     ax = _axis(v, axis)
     rest = tuple(a for i, a in enumerate(v.axes) if i != ax)
     if rest:
         raise Undecided("any/all along one axis of a 2-D array")
-    root = root_space(v.axes[ax])
-    dom = z3.BoolVal(True)
-    a = v.axes[ax]
-    while isinstance(a, SubSpace):
-        dom = z3.And(a.mask, dom)
-        a = a.parent
+    cond = v.t if which == "any" else z3.Not(v.t)
+    root, body_u = _rows_cond(v.axes[ax], cond)
     b = z3.Bool(fresh_name(which))
     x = z3.Int(fresh_name("i"))
-    body = z3.substitute(z3.And(dom, v.t if which == "any" else z3.Not(v.t)), (root.u, x))
-    rng = z3.And(x >= 0, x < root.n)
+    body = z3.substitute(body_u, (root.u, x))
+    rng = z3.And(x >= 0, x < root.n) if not hasattr(root, "keyvars") else z3.BoolVal(True)
     w = z3.Int(fresh_name("w"))
+    wfact = z3.And(w >= 0, w < root.n, z3.substitute(body, (x, w))) if not hasattr(root, "keyvars") else z3.substitute(body, (x, w))
     if which == "any":
-        interp.ctx.assume(z3.Implies(b, z3.And(w >= 0, w < root.n, z3.substitute(body, (x, w)))))
+        interp.ctx.assume(z3.Implies(b, wfact))
         interp.ctx.assume(z3.ForAll([x], z3.Implies(z3.And(rng, body), b)))
     else:
-        interp.ctx.assume(z3.Implies(z3.Not(b), z3.And(w >= 0, w < root.n, z3.substitute(body, (x, w)))))
+        interp.ctx.assume(z3.Implies(z3.Not(b), wfact))
         interp.ctx.assume(z3.ForAll([x], z3.Implies(z3.And(rng, body), z3.Not(b))))
+    # generic-row instances
+    interp.ctx.assume(z3.Implies(z3.And(*root.facts(), body_u), b if which == "any" else z3.Not(b)))
     return V(b)
 
 
